@@ -85,7 +85,12 @@ func c02Admissible(d *Decl, o *OptInfo, v, f string, quoted bool) (bool, string)
 		if o.IsOptional() {
 			return false, "separate form with optional argument (documented exception)"
 		}
-		if isOptSyntax(text) && !isNegativeNumberFor(o, text) {
+		if o.Kind.Elem() == KValid {
+			// the option's type decides itself which separate tokens it takes
+			if !ValidAccepts(text) {
+				return false, "separate value refused by the type's own validator (documented: ValueValidator)"
+			}
+		} else if isOptSyntax(text) && !isNegativeNumberFor(o, text) {
 			return false, "separate value with option syntax (documented exception)"
 		}
 		if d.Has(flags.PassDoubleDash) && text == "--" {
